@@ -98,8 +98,9 @@ RemoveDofs ==
          /\ hist' = Append(hist, H("rem", "", <<>>, R))
     /\ UNCHANGED <<st, dims, nder>>
 
-MaskChoices == IF b.nd <= SmallNd THEN (SUBSET BDofs(b)) \ {{}, BDofs(b)}
-               ELSE {BDofs(b) \ {d} : d \in {0, b.nd \div 2, b.nd-1}} \cup {{d \in BDofs(b) : d % 2 = 0}, {d \in BDofs(b) : d % 3 # 1}, 0..(b.nd \div 2)}
+MaskChoices == (IF b.nd <= SmallNd THEN SUBSET BDofs(b)
+                ELSE {BDofs(b) \ {d} : d \in {0, b.nd \div 2, b.nd-1}} \cup {{d \in BDofs(b) : d % 2 = 0}, {d \in BDofs(b) : d % 3 # 1}, 0..(b.nd \div 2)})
+               \ {{}, BDofs(b)}
 Mask ==
     /\ st = "built" /\ nder < MaxDer /\ "mask" \in Kinds /\ b.nd >= 2
     /\ \E K \in MaskChoices :
@@ -107,8 +108,9 @@ Mask ==
          /\ hist' = Append(hist, H("mask", "", BSorted(K), <<>>))
     /\ nder' = nder + 1 /\ UNCHANGED <<st, dims>>
 
-PruneChoices == IF b.ne <= SmallNe THEN (SUBSET BElems(b)) \ {{}, BElems(b)}
-                ELSE {BElems(b) \ {e} : e \in {0, b.ne \div 2, b.ne-1}} \cup {{e \in BElems(b) : e % 2 = 0}, {e \in BElems(b) : e % 3 # 0}, 0..(b.ne \div 2 - 1)}
+PruneChoices == (IF b.ne <= SmallNe THEN SUBSET BElems(b)
+                 ELSE {BElems(b) \ {e} : e \in {0, b.ne \div 2, b.ne-1}} \cup {{e \in BElems(b) : e % 2 = 0}, {e \in BElems(b) : e % 3 # 0}, 0..(b.ne \div 2 - 1)})
+                \ {{}, BElems(b)}
 Prune ==
     /\ st = "built" /\ nder < MaxDer /\ "prune" \in Kinds /\ b.ne >= 2
     /\ \E E \in PruneChoices :
